@@ -102,8 +102,8 @@ def cmd_tokens(sp):
     return " ".join(str(x) for x in sp)
 
 
-def make_cmd(sp):
-    """SPSDK command object for a spec (may raise)."""
+def make_cmd(sp, zero=True):
+    """SPSDK command object for a spec (may raise); zero=False: SPSDK's default random padding."""
     from spsdk.mboot.memories import ExtMemId
     from spsdk.sbfile.sb2 import commands as C
 
@@ -113,12 +113,12 @@ def make_cmd(sp):
     if k == "T":
         return C.CmdTag()
     if k == "L":
-        cmd = C.CmdLoad(sp[1], load_data(sp[4], sp[5]), sp[2], zero_filling=True)
+        cmd = C.CmdLoad(sp[1], load_data(sp[4], sp[5]), sp[2], zero_filling=zero)
         if sp[3]:
             cmd.flags = cmd.flags | sp[3]      # public setter
         return cmd
     if k == "F":
-        return C.CmdFill(sp[1], sp[2], sp[3], zero_filling=True)
+        return C.CmdFill(sp[1], sp[2], sp[3], zero_filling=zero)
     if k == "J":
         return C.CmdJump(sp[1], sp[2], sp[3])
     if k == "C":
@@ -334,13 +334,13 @@ class Chain:
         return cb
 
 
-def build_image(case, chains):
-    """SPSDK image object for a case (not yet exported)."""
+def build_image(case, chains, zero=True):
+    """SPSDK image object for a case (not yet exported); zero=False: random load/header padding (SPSDK's default)."""
     from spsdk.sbfile.sb2.images import BootImageV20, BootImageV21, BootSectionV2, SBV2xAdvancedParams
 
     adv = SBV2xAdvancedParams(dek=bytes.fromhex(case["dek"]), mac=bytes.fromhex(case["mac"]), nonce=bytes.fromhex(case["nonce"]),
-                              timestamp=datetime.fromtimestamp(case["ts"]), padding=bytes(8))
-    secs = [BootSectionV2(s["uid"], *[make_cmd(c) for c in s["cmds"]], hmac_count=s["hmac"], zero_filling=True) for s in case["sections"]]
+                              timestamp=datetime.fromtimestamp(case["ts"]), padding=bytes(8) if zero else None)
+    secs = [BootSectionV2(s["uid"], *[make_cmd(c, zero) for c in s["cmds"]], hmac_count=s["hmac"], zero_filling=zero) for s in case["sections"]]
     kw = dict(product_version=ver_str(case["pv"]), component_version=ver_str(case["cv"]), build_number=case["bn"], advanced_params=adv)
     if case["version"] == 21:
         img = BootImageV21(bytes.fromhex(case["kek"]), *secs, flags=case["flags"], **kw)
@@ -607,7 +607,7 @@ def run(ck, only_cases=None):
     if only_cases is not None:
         cases = only_cases
     else:
-        n21, n20 = ck.budget(160, 4000), ck.budget(80, 2000)
+        n21, n20 = ck.budget(160, 3000), ck.budget(80, 1500)
         cases = [gen_image(rng, 21, big=(i % 3 == 0), chains=chains) for i in range(n21)] + \
                 [gen_image(rng, 20, big=(i % 3 == 0), chains=chains) for i in range(n20)]
         # one deterministic multi-section / SHA / distinct-version case in every run
@@ -616,7 +616,8 @@ def run(ck, only_cases=None):
             cases[1]["sections"] = cases[1]["sections"] + [gen_section(rng, 77, False)]
     n_flip = ck.budget(8, 16)
     for case in cases:
-        check_image(ck, drv, s21 if case["version"] == 21 else s20, st, case, chains, n_flip, BootImageV20, BootImageV21)
+        forced = case.pop("_forced", None)
+        check_image(ck, drv, s21 if case["version"] == 21 else s20, st, case, chains, n_flip, BootImageV20, BootImageV21, forced)
 
 
 def load_chains(ck):
@@ -662,7 +663,7 @@ def regions(case, file, cert_len, sig_len):
     return out
 
 
-def check_image(ck, drv, s, st, case, chains, n_flip, BootImageV20, BootImageV21):
+def check_image(ck, drv, s, st, case, chains, n_flip, BootImageV20, BootImageV21, forced=None):
     rng = ck.rng
     v21 = case["version"] == 21
     nun = sum(1 for sec in case["sections"] for c in sec["cmds"] if unaligned_load(c))
@@ -706,6 +707,17 @@ def check_image(ck, drv, s, st, case, chains, n_flip, BootImageV20, BootImageV21
         if nun:
             s.expect(False, ["load-count", nun], "LOAD byte count in the file is the padded length: the loader writes the padding too",
                      "padded", "exact", finding="C04-load-count-padded")
+    # SPSDK's default: random padding of LOAD data and of the header (no byte comparison possible) - the ROM model must
+    # still accept and report the given content; only the bytes behind the given LOAD data and the signature may differ
+    if drv is not None and rng.random() < 0.3:
+        rr = pyres(lambda: build_image(case, chains, zero=False).export())
+        if rr[0] != "ok":
+            s.expect(False, case, "SPSDK refuses to build the image with random padding", rr)
+        else:
+            ans = drv.ask(f"rom{'21' if v21 else '20'} {case['kek']} {rr[1].hex()}")
+            okr = ans.startswith("ok:") and same_modulo_padding(case, ans, want) and \
+                verify_obligation(rr[1], rom_fields(ans)) is (True if case["signed"] else None)
+            s.expect(okr, case, "ROM model does not accept SPSDK's file built with random padding (content or signature)", _diff(ans, want))
     # header describes the file (on the real bytes, independent of the model)
     h = struct.unpack_from("<16s4s4s2BH4I4H4sQ12HI4s", file)
     ib, fbtb = h[6], h[7]
@@ -725,6 +737,9 @@ def check_image(ck, drv, s, st, case, chains, n_flip, BootImageV20, BootImageV21
     for name, lo, hi in picks:
         if hi > lo:
             trials.append((name, rng.randrange(lo, hi), rng.randrange(8)))
+    for name, pos, bit in forced or []:      # replay of a recorded flip
+        if pos is not None and 0 <= pos < len(file):
+            trials.append((name, pos, bit))
     lines, metas = [], []
     for name, pos, bit in trials:
         if name == "wrong_kek":
@@ -740,7 +755,7 @@ def check_image(ck, drv, s, st, case, chains, n_flip, BootImageV20, BootImageV21
     answers = drv.batch(lines) if drv is not None else [None] * len(lines)
     for (name, pos, bit, f2, k2), ans in zip(metas, answers):
         inp = {"case": case, "region": name, "byte": pos, "bit": bit}
-        st.note([case["nonce"], case["kek"], name, pos, bit], cls=name.split("_", 1)[-1] if name[0] == "s" and name[1].isdigit() else name)
+        st.note([case["nonce"], case["kek"], name, pos, bit], cls=("sect_" + name.split("_", 1)[-1]) if name[0] == "s" and name[1].isdigit() else name)
         if ans is not None:
             if ans.startswith("ok:"):
                 f = rom_fields(ans)
@@ -756,6 +771,45 @@ def check_image(ck, drv, s, st, case, chains, n_flip, BootImageV20, BootImageV21
                       "SPSDK parser returns different content for a tampered file / wrong KEK instead of an error", parsed_view(p2[1])[:300])
         else:
             st.expect(True, inp, "")
+
+
+CMD_RE = None
+
+
+def split_cmds(sections):
+    """'uid:flags:hc:[cmd,...]|...' -> list of (prefix, [cmd strings])"""
+    import re
+    global CMD_RE
+    CMD_RE = CMD_RE or re.compile(r"[A-Za-z]+\([^)]*\)|nop|reset")
+    out = []
+    for sec in sections.split("|"):
+        head, _, body = sec.partition(":[")
+        out.append((head, CMD_RE.findall(body)))
+    return out
+
+
+def same_modulo_padding(case, got, want):
+    """content lines equal except the signature and the bytes behind the given data of every LOAD"""
+    g, w = rom_fields(got), rom_fields(want)
+    for k in w:
+        if k not in ("sig", "sections") and g.get(k) != w[k]:
+            return False
+    gs, ws = split_cmds(g["sections"]), split_cmds(w["sections"])
+    if [h for h, _ in gs] != [h for h, _ in ws]:
+        return False
+    for (_, gc), (_, wc), sec in zip(gs, ws, case["sections"]):
+        if len(gc) != len(wc) or len(gc) != len(sec["cmds"]):
+            return False
+        for a, b, sp in zip(gc, wc, sec["cmds"]):
+            if sp[0] == "L":
+                n = 2 * sp[4]
+                ha, hb = a[:-1].rsplit(",", 1), b[:-1].rsplit(",", 1)
+                da, db = ("" if ha[1] == "-" else ha[1]), ("" if hb[1] == "-" else hb[1])
+                if ha[0] != hb[0] or len(da) != len(db) or da[:n] != db[:n]:
+                    return False
+            elif a != b:
+                return False
+    return True
 
 
 def _diff(a, b):
@@ -774,8 +828,13 @@ def replay(ck, data):
     cases = []
     for c in data.get("cases", []):
         inp = c.get("input")
+        forced = None
         if isinstance(inp, dict) and "case" in inp:
+            forced = [(inp.get("region"), inp.get("byte"), inp.get("bit"))]
             inp = inp["case"]
         if isinstance(inp, dict) and "sections" in inp and "version" in inp:
+            inp = dict(inp)
+            if forced:
+                inp["_forced"] = forced
             cases.append(inp)
     run(ck, only_cases=cases or None)
